@@ -119,6 +119,33 @@ def cover_categories(Ls, n, rng):
     return out
 
 
+class OverlapEraseFamily(Family):
+    """histories ending in an overlapping erase on non-trivially-relocatable VaryingSize lists,
+    oracle only (seeded change C16g): the erase path that re-emplaces element by element"""
+
+    def __init__(self, nscripts=10):
+        super().__init__()
+        self.nscripts = nscripts
+
+    def corpus(self, prop):
+        return []
+
+    def jobs(self, rng, tier):
+        mult = 1 if tier == "quick" else 5
+        jobs = []
+        Ls = [L for L in gen.curated_lists() if not lay.all_triv(L) and lay.has_varying(L)]
+        for L in Ls[:(4 if tier == "quick" else 12)]:
+            scripts = []
+            for _ in range(self.nscripts * mult):
+                r = gen.gen_overlap_erase(L, K_DEFAULT, rng)
+                if r is not None:
+                    self.add_stats(r[1])
+                    scripts.append((gen.script_id(r[0]), r[0], {"oracle_only": True}))
+            if scripts:
+                jobs.append(Job(L, K_DEFAULT, scripts, tag="overlap"))
+        return jobs
+
+
 class SpecialFamily(Family):
     """copy/move/swap histories over several vectors, for a covering set of allocator kinds"""
 
@@ -410,6 +437,20 @@ class SharedFamily(Family):
     def jobs(self, rng, tier):
         jobs = []
         Ls = self.lists(rng, tier, self.nlists)
+        # layouts on which the comparison operators take their whole-buffer / run-wise fast paths,
+        # with and without padding behind the elements (seeded change C19g: a "logically const"
+        # normalisation of padding bytes inside operator==)
+        P = lay.Param
+        extra = [[P(lay.PLAIN, 4, 8, lay.TUINT), P(lay.PLAIN, 1, 1, lay.TU8)],
+                 [P(lay.FIXED, 2, 8, lay.TUINT)],
+                 [P(lay.FIXED, 1, 4, lay.TU8), P(lay.PLAIN, 1, 1, lay.TBYTE)],
+                 [P(lay.PLAIN, 8, 8, lay.TUINT), P(lay.FIXED, 2, 2, lay.TSINT)]]
+        extra += [L for L in CompareFamily().extra_lists() if not lay.has_varying(L) and all(p.ty in (lay.TUINT, lay.TSINT, lay.TU8, lay.TS8, lay.TBYTE) for p in L)]
+        seen = {gen.list_key(L) for L in Ls}
+        for L in extra:
+            if gen.list_key(L) not in seen:
+                seen.add(gen.list_key(L))
+                Ls.append(L)
         for li, L in enumerate(Ls):
             K = [K_DEFAULT, K_PMR, (1, 1, 1, 0, 1)][li % 3]
             scripts = []
@@ -602,11 +643,11 @@ for p in ("C03", "C04"):
     # reachable states of the layout properties too (seeded change C04d)
     FAMILIES[p] = Multi(HistFamily(), SpecialFamily(nlists=6, nscripts=8), SweepFamily())
 FAMILIES["C10"] = Multi(HistFamily(strict_block=False, nhist=10, nfill=10, via_reserve=True), SweepFamily(nunits=2))
-FAMILIES["C16"] = Multi(HistFamily(nlists=16, nhist=8), SpecialFamily(nlists=6, nscripts=8))
+FAMILIES["C16"] = Multi(HistFamily(nlists=16, nhist=8), SpecialFamily(nlists=6, nscripts=8), OverlapEraseFamily())
 FAMILIES["C18"] = Multi(EmptyFamily(), HistFamily(nlists=8, nhist=6, nfill=2))
 FAMILIES["C01"] = Multi(HistFamily(allow_overlap=True), SpecialFamily(nlists=6, nscripts=8), SweepFamily())
 FAMILIES["C05"] = Multi(HistFamily(nlists=16, nhist=8), SpecialFamily(nlists=6, nscripts=8), SweepFamily())
-FAMILIES["C07"] = Multi(HistFamily(nlists=16, nhist=8), SpecialFamily(nlists=6, nscripts=8))
+FAMILIES["C07"] = Multi(HistFamily(nlists=16, nhist=8), SpecialFamily(nlists=6, nscripts=8), OverlapEraseFamily())
 # "every object stored in a vector or ContiguousElement": element histories on the lists with
 # instrumented value types as well (seeded change C06f)
 FAMILIES["C06"] = Multi(HistFamily(nlists=16, nhist=8, allow_overlap=True), SpecialFamily(nlists=6, nscripts=8),
